@@ -957,9 +957,9 @@ func main() {
 	nG, nProc, nRounds := 8, 6, 14
 	switch o.Tier {
 	case "thorough":
-		nG, nProc, nRounds = 32, 16, 100
+		nG, nProc, nRounds = 32, 12, 30
 	case "search":
-		nG, nProc, nRounds = 16, 12, 40
+		nG, nProc, nRounds = 16, 8, 20
 	}
 	if o.N > 0 {
 		nRounds = o.N
